@@ -568,6 +568,7 @@ func c10RunScenario(tr *zzverif.Trace, sn int, raw json.RawMessage, rig *c10Rig,
 		}
 		run.eps[id] = ep
 		run.idOf[ep.URLString] = id
+		run.probe.Watch(ep.URLString)
 		rig.be[id].script()
 	}
 	for _, p := range scn.Probe {
